@@ -58,7 +58,7 @@ type Kernel struct {
 // alwaysPark: after these points the task would otherwise run on in parallel with a task it has just
 // woken (search vs. the caller of Halt; timer callbacks vs. everything), which would make the
 // execution depend on real timing.
-var alwaysPark = map[string]bool{"iter.sent": true, "halt.woken": true, "timer.movetime": true, "timer.hard": true, "timer.movetime.done": true, "loop.idle": true, "loop.recv": true}
+var alwaysPark = map[string]bool{"fwd.done": true, "iter.sent": true, "halt.woken": true, "timer.movetime": true, "timer.hard": true, "timer.movetime.done": true, "loop.idle": true, "loop.recv": true}
 
 func goid() uint64 {
 	var buf [64]byte
@@ -112,8 +112,8 @@ func roleOf(point string) string {
 		return "mt"
 	case point == "timer.hard":
 		return "hard"
-	case strings.HasPrefix(point, "client."):
-		return "client"
+	case strings.HasPrefix(point, "client"):
+		return point[:strings.IndexByte(point, '.')] // clientA.x, clientB.x: one role per simulated client
 	case strings.HasPrefix(point, "halt.") || strings.HasPrefix(point, "complete."):
 		return "anon"
 	}
